@@ -28,10 +28,12 @@ impl Default for GenParams {
         GenParams {
             letters: PAT_LETTERS.to_vec(),
             max_depth: 4,
-            max_nodes: 12,
+            // under Miri everything is about four orders of magnitude slower: small terms, and no
+            // Perl classes (their calibration scans all scalar values)
+            max_nodes: if cfg!(miri) { 6 } else { 12 },
             allow_empty_alt: true,
             allow_classes: true,
-            allow_perl: true,
+            allow_perl: !cfg!(miri),
             allow_dot: true,
             max_rep: 3,
             styles: true,
@@ -293,6 +295,7 @@ pub fn sample(re: &Re, rng: &mut Rng, letters: &[char], out: &mut String) {
 
 /// Input generator: a mix of members of the pattern languages, near misses and noise.
 pub fn gen_input(rng: &mut Rng, res: &[&Re], letters: &[char], max_chars: usize) -> String {
+    let max_chars = if cfg!(miri) { max_chars.min(8) } else { max_chars };
     let mut s = String::new();
     let target = rng.below(max_chars + 1);
     let mut guard = 0;
